@@ -429,6 +429,9 @@ func (s *runtimeState) resolveIngress(r *http.Request, requestPath string) (stri
 	}
 
 	for _, rt := range s.routes {
+		if !servesIngress(rt) {
+			continue
+		}
 		if !router.MatchPath(requestPath, rt.Path) {
 			continue
 		}
@@ -468,6 +471,9 @@ func (s *runtimeState) allowedMethodsFor(r *http.Request, requestPath string) []
 	var out []string
 
 	for _, rt := range s.routes {
+		if !servesIngress(rt) {
+			continue
+		}
 		if !router.MatchPath(requestPath, rt.Path) {
 			continue
 		}
@@ -498,6 +504,17 @@ func (s *runtimeState) allowedMethodsFor(r *http.Request, requestPath string) []
 	}
 
 	return out
+}
+
+// servesIngress reports whether the ingress listener may hand requests to rt:
+// only inbound routes (the default channel) receive ingress traffic; outbound
+// and internal routes are fed through the Admin API/MCP only.
+func servesIngress(rt config.CompiledRoute) bool {
+	switch rt.ChannelType {
+	case config.ChannelOutbound, config.ChannelInternal:
+		return false
+	}
+	return true
 }
 
 func (s *runtimeState) resolvePull(endpoint string) (string, bool) {
